@@ -521,6 +521,12 @@ type v2Case struct {
 	sigsOK  bool // every level's signature/issuer is genuine (AuthenticateTokenV2's scope)
 	want    bool
 	reasons int
+	// ambiguous: the millisecond chain time lies in the upper half of a second
+	// and the verdict depends on whether "now" is that second or the next one.
+	// The property does not say how a sub-second chain time maps to the whole
+	// seconds tokens carry (the service rounds to nearest), so nothing is
+	// asserted about acceptance for such cases.
+	ambiguous bool
 }
 
 func genV2Case(t *rapid.T) v2Case {
@@ -572,6 +578,7 @@ func genV2Case(t *rapid.T) v2Case {
 	c.msg = msg
 	l := chain[len(chain)-1]
 	life, grant := lifeOKV2(l, c.nowSec), grantsV2(l, c.req)
+	c.ambiguous = c.intact && grant && life != lifeOKV2(l, c.nowMs/1000)
 	c.want = c.intact && life && grant
 	for _, b := range []bool{c.intact, life, grant} {
 		if !b {
@@ -596,7 +603,13 @@ func TestC30SessionV2(t *testing.T) {
 		if c.nowMs%1000 != 0 {
 			labels = append(labels, "subsecond-now")
 		}
-		rec.Case(c.reasons <= 1, fmt.Sprintf("%+v|%+v|%d|%s", c.chain, c.req, c.nowMs, c.label), labels...)
+		if c.ambiguous {
+			labels = append(labels, "subsecond-ambiguous(not asserted)")
+		}
+		for i := range labels {
+			labels[i] = "v2/" + labels[i]
+		}
+		rec.Case(c.reasons <= 1 && !c.ambiguous, fmt.Sprintf("%+v|%+v|%d|%s", c.chain, c.req, c.nowMs, c.label), labels...)
 		if rec.WantSample() {
 			rec.Sample(map[string]any{"chain(root..leaf)": fmt.Sprintf("%+v", c.chain), "req": fmt.Sprintf("%+v", c.req), "now_ms": c.nowMs, "defect": c.label, "want_accept": c.want})
 		}
@@ -604,6 +617,9 @@ func TestC30SessionV2(t *testing.T) {
 			return
 		}
 		got, err := w.svc.VerifySessionTokenMessage(c.msg, c.req.Verb, cnrs[c.req.Cnr])
+		if c.ambiguous {
+			return
+		}
 		if (err == nil) != c.want {
 			t.Fatalf("VerifySessionTokenMessage: err=%v, reference accept=%v\n chain(root..leaf)=%+v\n request=%+v now=%dms (second %d) defect=%s", err, c.want, c.chain, c.req, c.nowMs, c.nowSec, c.label)
 		}
